@@ -9,6 +9,7 @@ import (
 	"fmt"
 	"sort"
 	"strings"
+	"time"
 
 	"github.com/ohler55/slip"
 
@@ -65,7 +66,7 @@ func plans(tier string) []tierPlan {
 	}
 	return []tierPlan{
 		{"all templates at every level, D<=2", genOpts{}, []int{1, 2}},
-		{"root and second level from all templates, third level from the core subset, D=3", genOpts{coreFrom: 3}, []int{3}},
+		{"root from all templates, second and third level from the core subset, D=3", genOpts{coreFrom: 2}, []int{3}},
 	}
 }
 
@@ -328,6 +329,9 @@ func exec(spec string) (res engine.Result) {
 		newGenerator(genOpts{coreFrom: cf, spine: sp == 1}).roots(dev, func(string) { n++ })
 		res.Outcome = fmt.Sprint(n)
 		return
+	case strings.HasPrefix(spec, "bench:"):
+		res.Outcome = bench(spec[6:])
+		return
 	case strings.HasPrefix(spec, "show:"):
 		t, err := parseTerm(spec[5:])
 		if err != nil {
@@ -450,20 +454,6 @@ func pairVerdict(outer string, i int, inner string) *verdict {
 	return &v
 }
 
-func holeRole(k byte) string {
-	switch k {
-	case 't', 'f':
-		return "test"
-	case 'i', 'c', '0', '1', '2', '3', '4', '5', '6', '7', '8', '9':
-		return "integer-operand"
-	case 'l', 'n':
-		return "list-operand"
-	case 'r':
-		return "value-position"
-	}
-	return "evaluated-for-effect-or-value"
-}
-
 func isTemplate(t *term) bool { return t.kind != "_" && !strings.HasPrefix(t.kind, "$") }
 
 func attribute(t *term, prefix string, whole *verdict) (out []engine.Failure) {
@@ -501,7 +491,7 @@ func attribute(t *term, prefix string, whole *verdict) (out []engine.Failure) {
 					if n != t || 2 < t.deviations() {
 						d += from
 					}
-					add(fmt.Sprintf("form=%s hole=%s inner=%s kind=%s", tp.family, holeRole(tp.holes[i].kind), k.kind, pv.kind), d)
+					add(pairSig(tp, i, k.kind, pv.kind), d)
 					cut[k] = true
 					continue
 				}
@@ -537,6 +527,78 @@ func attribute(t *term, prefix string, whole *verdict) (out []engine.Failure) {
 	if core.String() != t.String() {
 		d += from
 	}
-	add(fmt.Sprintf("core=%s kind=%s", core, cv.kind), d)
+	add(coreSig(core, cv.kind), d)
 	return
+}
+
+func pairSig(outer *tmpl, i int, inner, kind string) string {
+	return fmt.Sprintf("at=%s inner=%s:%s kind=%s", outer.holes[i].class, tmplByName[inner].family, inner, kind)
+}
+
+// coreSig names a reduced failing term; terms of one or two templates get the
+// same names as in steps 1 and 2 of attribute.
+func coreSig(core *term, kind string) string {
+	if isTemplate(core) {
+		tp := tmplByName[core.kind]
+		nonDefault, at := 0, -1
+		for i, k := range core.kids {
+			if k.kind != "_" {
+				nonDefault++
+				at = i
+			}
+		}
+		if nonDefault == 0 {
+			return fmt.Sprintf("form=%s:%s kind=%s", tp.family, tp.name, kind)
+		}
+		if nonDefault == 1 && isTemplate(core.kids[at]) && core.kids[at].deviations() == 1 {
+			return pairSig(tp, at, core.kids[at].kind, kind)
+		}
+	}
+	return fmt.Sprintf("core=%s kind=%s", core, kind)
+}
+
+// bench (development aid): bench:<skip>:<n> executes n cases of the quick tier after skipping skip, timing the phases.
+func bench(arg string) string {
+	var skip, n int
+	_, _ = fmt.Sscanf(arg, "%d:%d", &skip, &n)
+	var specs []string
+	k := 0
+	enumerate(engine.Quick, func(s string) {
+		k++
+		if skip < k && len(specs) < n && k%7 == 0 {
+			specs = append(specs, s)
+		}
+	})
+	var tParse, tInst, tRef, tSlip, tExec time.Duration
+	fails := 0
+	for _, s := range specs {
+		if !strings.HasPrefix(s, "p|") {
+			continue
+		}
+		t0 := time.Now()
+		t, _ := parseTerm(s[2:])
+		valid(t, 'a', scope{})
+		t1 := time.Now()
+		p := instantiate(t, "c01bench")
+		text := p.text()
+		t2 := time.Now()
+		r := newRef("", refBudgetSteps)
+		_, rerr := r.run(p.forms)
+		t3 := time.Now()
+		if rerr == "" {
+			runSlip(text, 50*r.steps+10000)
+		}
+		t4 := time.Now()
+		res := exec(strings.Replace(s, "p|", "p|", 1))
+		t5 := time.Now()
+		if 0 < len(res.Failures) {
+			fails++
+		}
+		tParse += t1.Sub(t0)
+		tInst += t2.Sub(t1)
+		tRef += t3.Sub(t2)
+		tSlip += t4.Sub(t3)
+		tExec += t5.Sub(t4)
+	}
+	return fmt.Sprintf("n=%d fails=%d parse=%v inst=%v ref=%v slip=%v fullexec=%v", len(specs), fails, tParse, tInst, tRef, tSlip, tExec)
 }
